@@ -208,3 +208,77 @@ func c01colsWf(cs []c01col) bool {
 	}
 	return true
 }
+
+// c01colseq: SetColWidth / SetColOutlineLevel in order on a new worksheet; the <cols> list afterwards against
+// the model of flatCols with the setter's replacer (SaveCols.setCols); inv_step on the real code: the list is
+// well-formed after every sequence.
+func c01colseq(r *Run, spec string) {
+	w := strings.Fields(spec)
+	res := "bad-op"
+	func() {
+		defer func() {
+			if recover() != nil {
+				res = "PANIC"
+			}
+		}()
+		n, err := strconv.Atoi(w[0])
+		if err != nil || len(w) != 1+4*n {
+			return
+		}
+		f := xl.NewFile()
+		defer f.Close()
+		for k := 0; k < n; k++ {
+			c1, _ := strconv.Atoi(w[2+4*k])
+			c2, _ := strconv.Atoi(w[3+4*k])
+			n1, _ := xl.ColumnNumberToName(c1)
+			n2, _ := xl.ColumnNumberToName(c2)
+			var e error
+			if w[1+4*k] == "w" {
+				wd, _ := strconv.ParseFloat(unhx(w[4+4*k]), 64)
+				e = f.SetColWidth("Sheet1", n1, n2, wd)
+			} else {
+				lv, _ := strconv.Atoi(w[4+4*k])
+				e = f.SetColOutlineLevel("Sheet1", n1, uint8(lv))
+			}
+			if e != nil {
+				res = "ERR"
+				return
+			}
+		}
+		res = xl.VerifC01Cols(f, "Sheet1")
+	}()
+	ln := r.Op("colseq "+spec, res)
+	r.Case("colseq:"+spec, true)
+	r.Stat("colseq")
+	if cs, ok := c01colsParse(res); ok && !c01colsWf(cs) {
+		r.Fail("colseq:inv-cols-overlap", "<cols> not well-formed after a sequence of column setters", ln, "colseq "+spec)
+	}
+}
+
+func c01colseqPhase(r *Run, rng *Rng, n int) {
+	c01colseq(r, "0")
+	c01colseq(r, "3 w 1 1 "+hx("30")+" o 1 1 1 o 2 2 1")
+	c01colseq(r, "3 w 3 5 "+hx("12.5")+" w 1 4 "+hx("30")+" o 16384 16384 2")
+	for k := 0; k < n; k++ {
+		m := rng.Range(1, 7)
+		var b strings.Builder
+		b.WriteString(strconv.Itoa(m))
+		for q := 0; q < m; q++ {
+			base := 1
+			if rng.Chance(10) {
+				base = 16379
+			}
+			lo := base + rng.Intn(6)
+			hi := lo
+			if rng.Chance(50) {
+				hi = lo + rng.Intn(base+6-lo)
+			}
+			if rng.Chance(60) {
+				fmt.Fprintf(&b, " w %d %d %s", lo, hi, hx(rng.Pick([]string{"30", "12.5"})))
+			} else {
+				fmt.Fprintf(&b, " o %d %d %d", lo, lo, rng.Range(1, 3))
+			}
+		}
+		c01colseq(r, b.String())
+	}
+}
